@@ -23,8 +23,11 @@ type Mutex struct {
 }
 
 func (m *Mutex) Lock() {
-	site := zzmc.CallerSite(2)
-	zzmc.Point(site)
+	site := ""
+	if zzmc.Active() {
+		site = zzmc.CallerSite(2)
+		zzmc.Point(site)
+	}
 	m.lock(site)
 }
 
@@ -46,7 +49,9 @@ func (m *Mutex) lock(site string) {
 }
 
 func (m *Mutex) TryLock() bool {
-	zzmc.Point(zzmc.CallerSite(2))
+	if zzmc.Active() {
+		zzmc.Point(zzmc.CallerSite(2))
+	}
 	g.Lock()
 	defer g.Unlock()
 	if m.held {
@@ -89,8 +94,11 @@ func (m *RWMutex) wake() {
 }
 
 func (m *RWMutex) Lock() {
-	site := zzmc.CallerSite(2)
-	zzmc.Point(site)
+	site := ""
+	if zzmc.Active() {
+		site = zzmc.CallerSite(2)
+		zzmc.Point(site)
+	}
 	for {
 		g.Lock()
 		if !m.writer && m.readers == 0 {
@@ -118,8 +126,11 @@ func (m *RWMutex) Unlock() {
 }
 
 func (m *RWMutex) RLock() {
-	site := zzmc.CallerSite(2)
-	zzmc.Point(site)
+	site := ""
+	if zzmc.Active() {
+		site = zzmc.CallerSite(2)
+		zzmc.Point(site)
+	}
 	for {
 		g.Lock()
 		if !m.writer {
@@ -153,8 +164,11 @@ type Once struct {
 }
 
 func (o *Once) Do(f func()) {
-	site := zzmc.CallerSite(2)
-	zzmc.Point(site)
+	site := ""
+	if zzmc.Active() {
+		site = zzmc.CallerSite(2)
+		zzmc.Point(site)
+	}
 	for {
 		g.Lock()
 		if o.done {
@@ -194,7 +208,9 @@ type WaitGroup struct {
 }
 
 func (w *WaitGroup) Add(d int) {
-	zzmc.Point(zzmc.CallerSite(2))
+	if zzmc.Active() {
+		zzmc.Point(zzmc.CallerSite(2))
+	}
 	w.add(d)
 }
 
@@ -217,7 +233,9 @@ func (w *WaitGroup) add(d int) {
 }
 
 func (w *WaitGroup) Done() {
-	zzmc.Point(zzmc.CallerSite(2))
+	if zzmc.Active() {
+		zzmc.Point(zzmc.CallerSite(2))
+	}
 	w.add(-1)
 }
 
@@ -230,8 +248,11 @@ func (w *WaitGroup) Go(f func()) {
 }
 
 func (w *WaitGroup) Wait() {
-	site := zzmc.CallerSite(2)
-	zzmc.Point(site)
+	site := ""
+	if zzmc.Active() {
+		site = zzmc.CallerSite(2)
+		zzmc.Point(site)
+	}
 	g.Lock()
 	if w.n == 0 {
 		g.Unlock()
@@ -243,4 +264,89 @@ func (w *WaitGroup) Wait() {
 	g.Unlock()
 	<-c
 	zzmc.After(site)
+}
+
+// ---- the rest of the sync API, so that changes to the code under test keep compiling
+
+type Locker = sync.Locker
+
+// Cond is a scheduler-aware condition variable.
+type Cond struct {
+	L       Locker
+	waiters []chan struct{}
+}
+
+func NewCond(l Locker) *Cond { return &Cond{L: l} }
+
+func (c *Cond) Wait() {
+	site := ""
+	if zzmc.Active() {
+		site = zzmc.CallerSite(2)
+	}
+	ch := make(chan struct{})
+	g.Lock()
+	c.waiters = append(c.waiters, ch)
+	g.Unlock()
+	c.L.Unlock()
+	<-ch
+	zzmc.After(site)
+	c.L.Lock()
+}
+
+func (c *Cond) Signal() {
+	if zzmc.Active() {
+		zzmc.Point(zzmc.CallerSite(2))
+	}
+	g.Lock()
+	var ch chan struct{}
+	if len(c.waiters) > 0 {
+		ch = c.waiters[0]
+		c.waiters = c.waiters[1:]
+	}
+	g.Unlock()
+	if ch != nil {
+		close(ch)
+	}
+}
+
+func (c *Cond) Broadcast() {
+	if zzmc.Active() {
+		zzmc.Point(zzmc.CallerSite(2))
+	}
+	g.Lock()
+	w := c.waiters
+	c.waiters = nil
+	g.Unlock()
+	for _, ch := range w {
+		close(ch)
+	}
+}
+
+func OnceFunc(f func()) func() {
+	var o Once
+
+	return func() { o.Do(f) }
+}
+
+func OnceValue[T any](f func() T) func() T {
+	var o Once
+	var v T
+
+	return func() T {
+		o.Do(func() { v = f() })
+
+		return v
+	}
+}
+
+func OnceValues[T1, T2 any](f func() (T1, T2)) func() (T1, T2) {
+	var o Once
+	var v1 T1
+	var v2 T2
+
+	return func() (T1, T2) {
+		o.Do(func() { v1, v2 = f() })
+
+		return v1, v2
+	}
 }
